@@ -158,6 +158,84 @@ def plan_through_manager(kind, size, t, c, src='path', adj=None, plan_only=False
     return res['calls'], res['outcome']
 
 
+def plan_history(trs, t, c, adj, scratch):
+    """Several transfers, one after the other, on ONE manager / TransferConfig.
+    trs: [(kind, size, src)] -> [(calls of that transfer, outcome)]"""
+    s = Sched()
+    res = []
+
+    def main():
+        s3 = FakeS3(s)
+        client = FakeClient(s3, s)
+        osu = FaultyOSUtils(s)
+        harness.set_adjuster(adj)
+        cfg = TransferConfig(multipart_threshold=t, multipart_chunksize=c, io_chunksize=max(c, 1))
+        m = TransferManager(client, cfg, osu, executor_cls=NonThreadedExecutor)
+        try:
+            for i, (kind, size, src) in enumerate(trs):
+                cut = len(s3.calls)
+                if kind in ('download', 'copy'):
+                    s3.put('bkt', f'k{i}', harness.payload(size))
+                if kind == 'download':
+                    f = m.download('bkt', f'k{i}', SinkStream(s, seekable=True))
+                elif kind == 'copy':
+                    f = m.copy({'Bucket': 'bkt', 'Key': f'k{i}'}, 'bkt', f'dst{i}')
+                elif src == 'path':
+                    fileobj = os.path.join(scratch.path, f'src{i}')
+                    with open(fileobj, 'wb') as fh:
+                        fh.write(harness.payload(size))
+                    f = m.upload(fileobj, 'bkt', f'dst{i}')
+                else:
+                    f = m.upload(SourceStream(s, harness.payload(size), seekable=(src == 'seekable')), 'bkt', f'dst{i}')
+                try:
+                    f.result()
+                    oc = 'ok'
+                except Exception as e:  # noqa
+                    oc = repr(e)
+                res.append((s3.calls[cut:], oc))
+        finally:
+            harness.set_adjuster(None)
+    s.run_inline(main)
+    return res
+
+
+def history_cases(tier):
+    """the plan of a transfer does not depend on what the manager planned before: a first transfer
+    whose chunk size HAD to be raised (scaled part limit 3) is followed by transfers that need no
+    adjustment"""
+    adj = {'min_size': 1, 'max_size': 1000, 'max_parts': 3}
+    viol = []
+    n = 0
+    sd = ScratchDir('c14h')
+    try:
+        firsts = [('upload', 'path'), ('upload', 'seekable'), ('upload', 'nonseekable'), ('copy', None)]
+        seconds = [('upload', 'path'), ('upload', 'nonseekable'), ('copy', None), ('download', None)]
+        for (k1, s1), (k2, s2) in itertools.product(firsts, seconds):
+            for c, size1, size2 in ((2, 9, 6), (2, 13, 5), (1, 7, 3), (3, 20, 9)):
+                t = c
+                out = plan_history([(k1, size1, s1), (k2, size2, s2), (k1, size2, s1)], t, c, adj, sd)
+                n += 1
+                for (kind, size, src), (calls, oc) in list(zip([(k1, size1, s1), (k2, size2, s2), (k1, size2, s1)], out))[1:]:
+                    ceff = c
+                    if kind != 'download':
+                        while iceil(size, ceff) > adj['max_parts']:
+                            ceff *= 2
+                    errs = check_plan(kind, size, t, ceff, calls, multipart_expected=(size >= t))
+                    if kind != 'download' and size >= t and src != 'nonseekable':
+                        nparts = sum(1 for x in calls if x['op'] in ('UploadPart', 'UploadPartCopy'))
+                        if nparts != iceil(size, ceff):
+                            errs.append((f'C14:{kind}:chunksize-changed-needlessly',
+                                         f'{nparts} parts for size {size}: the configured chunk size {c} (effective {ceff}) was not used'))
+                    if oc != 'ok':
+                        errs.append((f'C14:{kind}:failed', oc))
+                    for sig, msg in errs:
+                        viol.append({'sig': sig, 'msg': msg + f' [after a {k1}/{s1} of size {size1} on the same manager; this transfer: {kind}/{src} size={size} threshold={t} chunk={c}]',
+                                     'replay': None})
+    finally:
+        sd.cleanup()
+    return n, viol[:6]
+
+
 def _sweep_job(job):
     kind, src, sizes, ts, cs = job
     sd = ScratchDir('c14')
@@ -339,6 +417,9 @@ def run(tier, seed):
     fe = frontends.planning_sweep(tier)
     cov['parts']['legacy S3Transfer + process-pool submitter'] = fe['coverage']
     viol.extend(fe['violations'])
+    nh, vh = history_cases(tier)
+    viol.extend(vh)
+    cov['parts']['three-transfer histories on one manager'] = {'histories': nh}
     n2, v2, s2 = adjuster_exhaustive(tier)
     viol.extend(v2)
     cov['parts']['ChunksizeAdjuster scaled exhaustive'] = {'evaluations': n2}
@@ -364,7 +445,7 @@ def run(tier, seed):
     cov['parts']['real scale through upload/copy submission (plan-only)'] = {
         'transfers': len(rjobs), 'part_requests_checked': sum(r['parts'] for r in rres)}
     samples += [r['sample'] for r in rres[:2]]
-    total = n1 + n2 + n3 + len(rjobs) + fe['coverage'].get('transfers', 0)
+    total = n1 + n2 + n3 + nh + len(rjobs) + fe['coverage'].get('transfers', 0)
     cov.update({'evaluations': total, 'distinct_nontrivial': len(sigs) + len(s2) + len(s3) + len(rjobs),
                 'rule': 'exhaustive over the scaled (size, threshold, chunk) grid x transfer kinds, exhaustive adjuster grid, explicit real-scale boundary set; '
                         'distinct = distinct (kind, multipart?, #parts, exact multiple?) shapes / adjuster outcomes / real-scale cases',
